@@ -34,7 +34,7 @@ def build(node, H, salt: int, eolstr: str, strip_meta=False):
     """gamma: abstract node -> real object (None for a stripped metadata node)."""
     k, i = node["k"], node["id"]
     if k in ("T", "H", "R"):
-        tail = "".join(eolstr if t[0] == "eol" else "  " for t in node.get("tail", []))
+        tail = "".join(eolstr if t[0] == "eol" else ("  " if t[0] == "ind" else f"{L}{t[1]}{R}") for t in node.get("tail", []))
         payload = f"{L}{i}{R}{tail}"
         if k == "T":
             return payload
@@ -44,11 +44,17 @@ def build(node, H, salt: int, eolstr: str, strip_meta=False):
     if k == "M":
         if strip_meta:
             return None
-        m = (i + salt) % 3
+        m = (i + salt) % 5
         if m == 0:
             return H.MetadataNode()
         if m == 1:
             return H.HTMLDependency(f"dep{i}", "1.0", head="<meta name='x'>")
+        if m == 2:
+            # renders fine but could not be serialised to JSON (only json render mode may care)
+            import pathlib
+            return H.HTMLDependency(f"pth{i}", "2.0", source={"subdir": pathlib.Path("some/dir")}, script={"src": "a.js"})
+        if m == 3:
+            return H.HTMLDependency(f"lazy{i}", "0.1", head=gamma.Tfy(lambda: H.tags.title("t")))
         return H.head_content(H.tags.title(str(i)))
     kids = [build(c, H, salt, eolstr, strip_meta) for c in node["c"]]
     kids = [x for x in kids if x is not None] if strip_meta else kids
@@ -183,8 +189,10 @@ class _LayoutBase(Prop):
                         break
                     nd["c"].append(node(depth + 1))
             elif tails and k in "TH" and rnd.random() < 0.3:
+                # content that itself contains line breaks / spaces: at its end, or in the middle (continuation leaf)
                 nd["tail"] = rnd.choice([[["eol", 0]], [["eol", 0], ["ind", 0]], [["ind", 0]],
-                                         [["eol", 0], ["ind", 0], ["ind", 0]], [["eol", 0], ["eol", 0]]])
+                                         [["eol", 0], ["ind", 0], ["ind", 0]], [["eol", 0], ["eol", 0]],
+                                         [["eol", 0], ["leaf", i]], [["eol", 0], ["ind", 0], ["leaf", i], ["eol", 0], ["leaf", i]]])
             return nd
         return node(1, root=True)
 
@@ -192,7 +200,7 @@ class _LayoutBase(Prop):
         gens = []
         n = 700 if tier == "quick" else 15000
         for j in range(n):
-            t = self.rand_tree(rnd, rnd.choice([8, 20, 60]), rnd.choice([3, 5, 8]), tails=(self.id == "C06" and j % 3 == 0))
+            t = self.rand_tree(rnd, rnd.choice([8, 20, 60]), rnd.choice([3, 5, 8]), tails=(j % 3 == 0))
             eol = rnd.choice(self.EOLS)
             if any(tk[0] == "eol" for nd in _walk(t) for tk in nd["tail"]) and eol == "":
                 eol = "\n"
@@ -208,8 +216,15 @@ class _LayoutBase(Prop):
         obj0 = build(t, H, g.get("salt", 0), eol, strip_meta=True)
         out = render(obj, H, g["indent"], eol, g["addws"])
         out0 = render(obj0, H, g["indent"], eol, g["addws"])
+        # the other string views (str / repr / _repr_html_ / render) with and without the metadata nodes
+
+        def views(o):
+            try:
+                return [str(o), repr(o), o._repr_html_(), o.render()["html"]]
+            except Exception as ex:  # noqa
+                return ["raised " + type(ex).__name__]
         return {"k": "render", "tree": t, "indent": g["indent"], "eol": eol != "", "addws": g["addws"],
-                "toks": scan(out, eol), "toks0": scan(out0, eol), "gen": g}
+                "toks": scan(out, eol), "toks0": scan(out0, eol), "strSame": views(obj) == views(obj0), "gen": g}
 
 
 def _walk(t):
